@@ -81,6 +81,23 @@ func (f *Frame) execCall(instr *ssa.Call, cc *ssa.CallCommon, reach string, st *
 			for i, r := range res {
 				f.ctx.Fact(f.ctx.typeFacts(r, sig.Results().At(i).Type(), st.alloc))
 			}
+			if len(res) == 1 && len(args) == 0 && isByteSlice(sig.Results().At(0).Type()) {
+				// byte slices returned by stable getters have stable contents
+				f.eng.note("byte slices returned by stable pure getters (ifacegetters) have stable contents")
+				f.ctx.Fact(Implies(reach, fmt.Sprintf("(= (content %s %s) %s)", f.heap(st, "H_uint8"), res[0], f.getterBytes(cc.Method, recv))))
+			}
+			if len(ic.Ensures) > 0 {
+				// a pure getter may still state facts about its (stable) result
+				env2 := f.calleeEnv(ic, nil, sig, append([]string{recv}, args...), st, st)
+				env2.bindResults(sig, res)
+				for _, e := range ic.Ensures {
+					g, err := env2.evalBool(e.E)
+					if err != nil {
+						f.bail("contract %s ensures %q: %v", ic.Ref, e.Text, err)
+					}
+					f.ctx.Fact(Implies(reach, g))
+				}
+			}
 			f.setResult(instr, res)
 			return
 		}
@@ -91,6 +108,11 @@ func (f *Frame) execCall(instr *ssa.Call, cc *ssa.CallCommon, reach string, st *
 	if callee == nil {
 		// call through a function value
 		fv := f.val(cc.Value)
+		if f.top.noopFuncs[fv] {
+			// broadcast() / getWaitCh() inside a HoldLock callback: no effect on modelled state
+			f.setResult(instr, f.havocResults(sig, st, "bcast"))
+			return
+		}
 		if cv, ok := f.top.closures[fv]; ok && f.depth < maxInlineDepth {
 			res := f.inlineCall(cv.fn, args, cv.bindings, reach, st)
 			f.setResult(instr, res)
@@ -111,11 +133,17 @@ func (f *Frame) execCall(instr *ssa.Call, cc *ssa.CallCommon, reach string, st *
 	}
 	switch specialCallee(callee) {
 	case "lock":
-		f.lockOp(args[0], true, reach, st, pos)
+		f.lockOp(cc.Args[0], true, reach, st, pos)
 		return
 	case "unlock":
-		f.lockOp(args[0], false, reach, st, pos)
+		f.lockOp(cc.Args[0], false, reach, st, pos)
 		return
+	}
+	if n := FuncName(callee); n == "github.com/aperturerobotics/util/broadcast.(*Broadcast).HoldLock" {
+		f.eng.note("Broadcast.HoldLock(cb) runs cb exactly once, synchronously, with the lock held (assumed contract of util/broadcast)")
+		if f.holdLock(instr, cc, reach, st) {
+			return
+		}
 	}
 	f.callSiteAsserts(instr, cc, FuncName(callee), args, reach, st)
 	fc := f.eng.contractFor(callee)
@@ -168,6 +196,13 @@ func (f *Frame) pureMethodResults(m *types.Func, sig *types.Signature, recv stri
 		res = append(res, "("+name+" "+strings.Join(append([]string{recv}, args...), " ")+")")
 	}
 	return res
+}
+
+// getterBytes: the stable contents of the byte slice returned by pure getter m on recv.
+func (f *Frame) getterBytes(m *types.Func, recv string) string {
+	name := "imc_" + m.Name()
+	f.ctx.DeclareOnce(name, fmt.Sprintf("(declare-fun %s (Iface) Str)", name))
+	return "(" + name + " " + recv + ")"
 }
 
 // autoInline: generated nil-safe protobuf getters and tiny leaf accessors.
@@ -247,9 +282,13 @@ func (f *Frame) inlineCall(callee *ssa.Function, args, bindings []string, reach 
 		return f.havocResults(sig, st, callee.Name())
 	}
 	var edges []inEdge
+	var retReach []string
 	for _, r := range sub.rets {
 		edges = append(edges, inEdge{nil, r.reach, r.st})
+		retReach = append(retReach, r.reach)
 	}
+	// code after the call runs only if the callee returned through one of its returns
+	f.ctx.Fact(Implies(reach, Or(retReach...)))
 	merged := f.mergeStates(edges)
 	*st = *merged
 	var res []string
@@ -523,10 +562,6 @@ func (f *Frame) copyOp(instr *ssa.Call, cc *ssa.CallCommon, reach string, st *St
 	}
 }
 
-// lockOp: placeholder for the monitor model (see lock.go).
-func (f *Frame) lockOp(mu string, lock bool, reach string, st *State, pos any) {
-	f.lockModel(mu, lock, reach, st)
-}
 
 // freshOnly reports whether fn (transitively) writes only to objects it
 // allocated itself: from a caller's point of view no pre-existing object
